@@ -11,9 +11,12 @@ import (
 func init() { register("C14", C14) }
 
 // foldsAsMax reports how the value v (e.g. the depth returned by a recursive
-// call) is folded into a running extremum: it finds `if v > acc { acc = v }`
-// in SSA form (a compare of v against a phi that receives v on the true side).
+// call) is folded into a running extremum: it finds a compare of v against a
+// phi `acc` and a phi that receives v on exactly one side of the branch on that
+// compare; op is the comparison "v op acc" under which v is taken (so both
+// `if v > acc { acc = v }` and `if v <= acc { continue }; acc = v` give >).
 func foldsAsMax(v ssa.Value) (op token.Token, acc *ssa.Phi, ok bool) {
+	negate := map[token.Token]token.Token{token.LSS: token.GEQ, token.GEQ: token.LSS, token.GTR: token.LEQ, token.LEQ: token.GTR}
 	for _, ref := range *v.Referrers() {
 		b, isBin := ref.(*ssa.BinOp)
 		if !isBin {
@@ -39,103 +42,231 @@ func foldsAsMax(v ssa.Value) (op token.Token, acc *ssa.Phi, ok bool) {
 		if phi == nil {
 			continue
 		}
-		// the If on this compare, and a phi (acc itself or a successor phi) that takes v from the true side
+		if _, isOrd := negate[dir]; !isOrd {
+			continue
+		}
+		// the If on this compare, and a phi (acc itself or a successor phi) that takes v from one side only
 		for _, r2 := range *b.Referrers() {
 			iff, isIf := r2.(*ssa.If)
-			if !isIf {
+			if !isIf || iff.Block().Succs[0] == iff.Block().Succs[1] {
 				continue
 			}
-			tBlk := iff.Block().Succs[0]
-			takes := func(ph *ssa.Phi) bool {
+			takes := func(ph *ssa.Phi, side *ssa.BasicBlock) bool {
 				for i, e := range ph.Edges {
 					if e == v {
 						pred := ph.Block().Preds[i]
-						if pred == tBlk || tBlk.Dominates(pred) || (pred == iff.Block() && ph.Block() == tBlk) {
+						if (pred == iff.Block() && ph.Block() == side) || (pred != iff.Block() && edgeDominates(iff.Block(), side, pred)) {
 							return true
 						}
 					}
 				}
 				return false
 			}
-			if takes(phi) {
-				return dir, phi, true
-			}
+			phis := []*ssa.Phi{phi}
 			// acc may be carried by another phi that merges v and the old acc
 			for _, r3 := range *v.Referrers() {
-				if ph, isPhi := r3.(*ssa.Phi); isPhi && takes(ph) {
-					return dir, phi, true
+				if ph, isPhi := r3.(*ssa.Phi); isPhi && ph != phi {
+					phis = append(phis, ph)
 				}
+			}
+			onTrue, onFalse := false, false
+			for _, ph := range phis {
+				onTrue = onTrue || takes(ph, iff.Block().Succs[0])
+				onFalse = onFalse || takes(ph, iff.Block().Succs[1])
+			}
+			switch {
+			case onTrue && !onFalse:
+				return dir, phi, true
+			case onFalse && !onTrue:
+				return negate[dir], phi, true
 			}
 		}
 	}
 	return 0, nil, false
 }
 
+// c14EarlyLeave checks one loop that must visit every element (the incoming
+// links of a node, the outputs of a network): an iteration may end the loop
+// before the elements are exhausted only after the depth query `c` of that
+// iteration reported an error. Returns a witness iteration path, or nil.
+func c14EarlyLeave(p *Prog, l *Loop, paths []*IterPath, c ssa.CallInstruction) []string {
+	var errV ssa.Value
+	for _, ref := range *c.Value().Referrers() {
+		if e, ok := ref.(*ssa.Extract); ok && e.Index == 1 {
+			errV = e
+		}
+	}
+	for _, ip := range paths {
+		if ip.End == "back" {
+			continue
+		}
+		if len(ip.Blocks) == 2 && ip.Blocks[0] == l.Header {
+			continue // the header's own exit: the elements are exhausted
+		}
+		if errV != nil && ip.OnPath(c) && c14NonNil(errV, ip.Conds) {
+			continue
+		}
+		return ip.Describe(p)
+	}
+	return nil
+}
+
+// c14DroppedError looks for a path on which a depth query was seen to fail
+// (its error tested non-nil) while the function returns something else than
+// that error. isQueryErr tells whether a value is the error result of a depth
+// query.
+func c14DroppedError(cases []*c14RetCase, errIdx int, isQueryErr func(ssa.Value) bool) (*c14RetCase, ssa.Value) {
+	for _, rc := range cases {
+		if errIdx >= len(rc.Vals) {
+			continue
+		}
+		for j, pa := range rc.Paths {
+			var dropped ssa.Value
+			pa.EachCond(func(c ssa.Value, o bool, cpos int) {
+				b, ok := c.(*ssa.BinOp)
+				if !ok || (b.Op != token.EQL && b.Op != token.NEQ) || (b.Op == token.NEQ) != o {
+					return
+				}
+				for _, pr := range [][2]ssa.Value{{b.X, b.Y}, {b.Y, b.X}} {
+					k, isC := pr[1].(*ssa.Const)
+					x := c14Canon(pr[0])
+					if !isC || k.Value != nil || !isQueryErr(x) {
+						continue
+					}
+					if rc.Vals[errIdx] != x || !pa.sameInstance(x, cpos, rc.Pos[j][errIdx]) {
+						dropped = x
+					}
+				}
+			})
+			if dropped != nil {
+				return rc, dropped
+			}
+		}
+	}
+	return nil, nil
+}
+
 // C14 — activation depth.
 func C14(p *Prog, r *Run) {
-	r.Explanation = "Decided on NNode.Depth and Network.MaxActivationDepthWithCap: (1) no return is reachable from `visited = true` without `visited = false` on the same node (flag-sensitive path search over the SSA CFG, every path, including the error-propagation return); (2) every recursive call is guarded by `!in.visited` of the node it recurses into and dominated by the receiver's mark (termination on cyclic graphs); (3) the depth-exceeded error originates only under `cap > 0 && d > cap` (strict) and returns the cap, errors from the recursion are propagated unchanged; (4) sensors return d, the recursion passes d+1 and the same cap, results are folded with a strict `>` maximum, over the incoming links and over the outputs starting from depth 0, and the shortcut 1 is returned only when there are no hidden nodes. Not decided: the numeric equality with the longest path on every DAG (follows from 2-4 by induction, which the checker does not perform)."
+	r.Explanation = "Decided on NNode.Depth and Network.MaxActivationDepthWithCap: (1) no return is reachable from `visited = true` without `visited = false` on the same node - by an explicit store or by a deferred call that was certainly registered and clears the mark on each of its paths (flag-sensitive path search over the SSA CFG, every path, including the error-propagation return); the same for the successful returns of every other function of the package that sets the mark; (2) every recursive call is guarded by `!in.visited` of the node it recurses into and dominated by the receiver's mark (termination on cyclic graphs), every iteration over the incoming links recurses unless the source is marked, and the loop is left early only after a recursion error; (3) the depth-exceeded error originates only under `cap > 0 && d > cap` (strict) and returns the cap, errors from the recursion are propagated unchanged (decided per return alternative: value and error that belong together, also when returns are merged or results live in cells); (4) under every case in which IsSensor holds, Depth returns (d, nil) (or the cap error) without recursing; the recursion passes d+1 and the same cap, results are folded with a strict `>` maximum that starts at d, over the incoming links and over all outputs starting from depth 0, and the shortcut 1 is returned only when len(allNodes) == len(inputs)+len(Outputs) (linear form). Not decided: the numeric equality with the longest path on every DAG (follows from 2-4 by induction, which the checker does not perform)."
 	depth := p.Func(PkgN, "NNode.Depth")
 	visited := p.Field(PkgN, "NNode", "visited")
 	r.Fn(FuncName(depth))
 	tm := NewTermer(depth)
+	T := func(v ssa.Value) *Term { return c14T(tm, v) }
+	sentinelG, _ := p.SSAPk[PkgN].Members["ErrMaximalNetDepthExceeded"].(*ssa.Global)
+	isSentinel := func(v ssa.Value) bool {
+		u, ok := v.(*ssa.UnOp)
+		return ok && sentinelG != nil && u.Op == token.MUL && u.X == ssa.Value(sentinelG)
+	}
+	// depthResult: v is result #idx of a call of NNode.Depth - returns that call
+	depthResult := func(v ssa.Value, idx int) *ssa.Call {
+		x, ok := v.(*ssa.Extract)
+		if !ok || x.Index != idx {
+			return nil
+		}
+		c, ok := x.Tuple.(*ssa.Call)
+		if !ok || c.Call.StaticCallee() != depth {
+			return nil
+		}
+		return c
+	}
+	// what Depth returns, path by path (value and error that are returned together)
+	var dCases []*c14RetCase
+	dCasesDone := false
+	depthCases := func() []*c14RetCase {
+		if !dCasesDone {
+			cs, complete := c14ReturnCases(depth, 4000)
+			if !complete {
+				Bail("Depth.returns.paths", p.Pos(depth.Pos()), "too many paths through NNode.Depth")
+			}
+			dCases, dCasesDone = cs, true
+			for _, c := range cs {
+				r.PathsExplored += len(c.Paths)
+			}
+		}
+		return dCases
+	}
 
-	r.Rule("C14.1", "mark/unmark pairing: no Return is reachable from a store visited=true without passing a store visited=false on the same node", func() {
-		n := 0
-		for _, st := range FieldStores(depth, visited) {
-			if !IsConstBool(st.Val, true) {
+	r.Rule("C14.1", "mark/unmark pairing: no Return is reachable from a store visited=true without passing a store visited=false on the same node (explicit, or by a registered deferred call); in the other functions of the package that set the mark, no successful return is", func() {
+		marks := c14MarkPairing(p, depth, visited, IsReturn, &r.PathsExplored)
+		for _, m := range marks {
+			if m.Witness != nil {
+				r.Bad("Depth.visited", p.Pos(m.Store.Pos()), "a return is reachable after `visited = true` without clearing the mark: a capped or failed query leaves traversal marks behind and a later query is truncated", m.Witness...)
+			} else {
+				r.OK("Depth.visited", p.Pos(m.Store.Pos()), "every path from the mark to a return clears it")
+			}
+		}
+		r.Floor("visited=true stores in Depth", len(marks), 1)
+		// Depth trusts the mark, so every other traversal that sets it must hand it back cleared as well: a successful
+		// call (one that does not return a non-nil error) of such a function leaves no mark behind.
+		pinned := PinnedFuncs()
+		srcFuncs := p.SrcFuncs()
+		for _, fn := range srcFuncs {
+			if fn == depth || fn.Pkg == nil || fn.Pkg.Pkg.Path() != PkgN {
 				continue
 			}
-			n++
-			base := st.Addr.(*ssa.FieldAddr).X
-			release := func(in ssa.Instruction) bool {
-				s2, ok := in.(*ssa.Store)
+			// a helper introduced by a refactoring whose calls were all expanded in place (source normalisation) is
+			// examined where it was expanded, as part of its callers; its own body is not a traversal of its own
+			if obj, ok := fn.Object().(*types.Func); ok && !pinned[obj.FullName()] {
+				called := false
+				for _, g := range srcFuncs {
+					if len(CallsTo(g, fn)) > 0 {
+						called = true
+						break
+					}
+				}
+				if !called {
+					continue
+				}
+			}
+			errIdx := -1
+			if res := fn.Signature.Results(); res.Len() > 0 && types.Identical(res.At(res.Len()-1).Type(), types.Universe.Lookup("error").Type()) {
+				errIdx = res.Len() - 1
+			}
+			success := func(in ssa.Instruction) bool {
+				ret, ok := in.(*ssa.Return)
 				if !ok {
 					return false
 				}
-				fa, ok := s2.Addr.(*ssa.FieldAddr)
-				return ok && fieldOf(fa.X.Type(), fa.Field) == visited && fa.X == base && IsConstBool(s2.Val, false)
+				if errIdx < 0 || errIdx >= len(ret.Results) {
+					return true
+				}
+				return !c14NonNil(c14ReachingStore(ret.Results[errIdx], c14SinglePred), Guards(ret.Block()))
 			}
-			path := FindPath(p, PathQuery{Fn: depth, StartAfter: st, Target: IsReturn, Avoid: release, Explored: &r.PathsExplored})
-			if path != nil {
-				r.Bad("Depth.visited", p.Pos(st.Pos()), "a return is reachable after `visited = true` without clearing the mark: a capped or failed query leaves traversal marks behind and a later query is truncated", path...)
-			} else {
-				r.OK("Depth.visited", p.Pos(st.Pos()), "every path from the mark to a return clears it")
+			ms := c14MarkPairing(p, fn, visited, success, &r.PathsExplored)
+			if len(ms) > 0 {
+				r.Fn(FuncName(fn))
 			}
-		}
-		r.Floor("visited=true stores in Depth", n, 1)
-		// also: nothing else in the depth API leaves a mark (printDepthPaths is a sibling with the same protocol)
-		if pd := p.FuncOpt(PkgN, "NNode.printDepthPaths"); pd != nil {
-			r.Note("sibling NNode.printDepthPaths uses the same mark protocol; it is outside the statement and is not checked here")
+			for _, m := range ms {
+				if m.Witness != nil {
+					r.Bad(fn.Name()+".visited", p.Pos(m.Store.Pos()), "a successful return of "+fn.Name()+" is reachable after `visited = true` without clearing the mark: NNode.Depth skips marked nodes, so every later depth query on this network is truncated", m.Witness...)
+				} else {
+					r.OK(fn.Name()+".visited", p.Pos(m.Store.Pos()), "every path from the mark to a successful return clears it (returns of a non-nil error are outside the statement)")
+				}
+			}
 		}
 	})
 
-	r.Rule("C14.2", "termination: each recursive call is control-dependent on !visited of the node it recurses into, and the receiver's own mark dominates the call", func() {
+	r.Rule("C14.2", "termination: each recursive call is control-dependent on !visited of the node it recurses into, and the receiver's own mark dominates the call; every incoming link is followed unless its source is marked or an error ends the query", func() {
 		calls := CallsTo(depth, depth)
 		for _, c := range calls {
 			r.CallSites++
-			recvT := tm.Of(c.Common().Args[0])
+			recvT := T(c.Common().Args[0])
 			want := recvT.String() + ".visited"
-			guarded := false
-			for _, g := range Guards(c.Block()) {
-				if gt := tm.Of(g.Cond); gt.String() == want && !g.True {
-					guarded = true
-				}
-				if gt := tm.Of(g.Cond); gt.Op == "un" && gt.Name == "!" && gt.Args[0].String() == want && g.True {
-					guarded = true
-				}
-			}
+			guarded := c14Holds(c14Lits(tm, Guards(c.Block())), want, false)
 			r.Check(guarded, "Depth.recursion.guard", p.Pos(c.Pos()), "the recursion into "+recvT.String()+" is guarded by !"+want,
 				"the recursive call into "+recvT.String()+" is not guarded by its visited mark: the search does not terminate on cyclic networks")
 			marked := false
 			for _, st := range FieldStores(depth, visited) {
-				if IsConstBool(st.Val, true) && tm.Of(st.Addr.(*ssa.FieldAddr).X).Op == "recv" &&
+				if IsConstBool(st.Val, true) && c14IsParam(depth, st.Addr.(*ssa.FieldAddr).X, 0) &&
 					(st.Block() == c.Block() && instrIndex(st) < instrIndex(c) || st.Block().Dominates(c.Block()) && st.Block() != c.Block()) {
 					marked = true
 				}
 			}
 			r.Check(marked, "Depth.recursion.mark", p.Pos(c.Pos()), "the receiver is marked visited before recursing", "the receiver is not marked visited before the recursive call: a cycle through it is not detected")
 			// arguments: d+1 and the same cap
-			d, cp := tm.Of(c.Common().Args[1]), tm.Of(c.Common().Args[2])
+			d, cp := T(c.Common().Args[1]), T(c.Common().Args[2])
 			okD := d.Op == "bin" && d.Name == "+" && ((isParamIdx(d.Args[0], 1) && d.Args[1].String() == "1") || (isParamIdx(d.Args[1], 1) && d.Args[0].String() == "1"))
 			r.Check(okD, "Depth.recursion.d+1", p.Pos(c.Pos()), "the recursion passes d+1", "the recursion passes "+d.String()+" as depth, expected d+1")
 			r.Check(isParamIdx(cp, 2), "Depth.recursion.cap", p.Pos(c.Pos()), "the recursion passes the cap on unchanged", "the recursion passes "+cp.String()+" as cap")
@@ -146,6 +277,13 @@ func C14(p *Prog, r *Run) {
 					ex = e
 				}
 			}
+			examined := false
+			for _, ref := range *c.Value().Referrers() {
+				if e, ok := ref.(*ssa.Extract); ok && e.Index == 1 && len(*e.Referrers()) > 0 {
+					examined = true
+				}
+			}
+			r.Check(examined, "Depth.recursion.err", p.Pos(c.Pos()), "the error of the recursive query is examined", "the error of the recursive query is ignored: a depth-exceeded result (the cap) is folded in as if it were a depth")
 			if ex == nil {
 				r.Bad("Depth.fold", p.Pos(c.Pos()), "the depth returned by the recursion is not used")
 			} else {
@@ -169,7 +307,7 @@ func C14(p *Prog, r *Run) {
 				continue
 			}
 			r.PathsExplored += len(paths)
-			want := tm.Of(c.Common().Args[0]).String() + ".visited"
+			want := T(c.Common().Args[0]).String() + ".visited"
 			okAll := true
 			var wit []string
 			for _, ip := range paths {
@@ -178,8 +316,7 @@ func C14(p *Prog, r *Run) {
 				}
 				seen := false
 				for _, g := range ip.Conds {
-					gt := tm.Of(g.Cond)
-					if gt.String() == want && g.True {
+					if a, v := c14Lit(tm, g.Cond, g.True); a == want && v {
 						seen = true
 					}
 				}
@@ -189,99 +326,191 @@ func C14(p *Prog, r *Run) {
 				}
 			}
 			r.Check(okAll, "Depth.links.all-followed", p.Pos(c.Pos()), "a link is skipped only when its source node is marked visited", "an incoming link can be skipped although its source is not marked visited: paths through that link are not measured and the depth is under-reported", wit...)
+			early := c14EarlyLeave(p, l, paths, c)
+			r.Check(early == nil, "Depth.links.exit", p.Pos(c.Pos()), "the loop over the incoming links ends only when the links are exhausted or the recursion reported an error",
+				"the loop over the incoming links can end before all links were followed although no recursion error occurred: the remaining links are not measured (depth under-reported, depth-exceeded error lost)", early...)
 		}
 	})
 
 	r.Rule("C14.3", "cap: ErrMaximalNetDepthExceeded originates only under cap>0 && d>cap (strict) and is returned together with the cap; recursion errors are propagated unchanged", func() {
-		sentinel := p.SSAPk[PkgN].Members["ErrMaximalNetDepthExceeded"]
-		if sentinel == nil {
+		if sentinelG == nil {
 			panic(anchorMissing{"network.ErrMaximalNetDepthExceeded"})
 		}
 		n := 0
-		for _, b := range depth.Blocks {
-			ret, ok := b.Instrs[len(b.Instrs)-1].(*ssa.Return)
-			if !ok {
+		for _, rc := range depthCases() {
+			if len(rc.Vals) != 2 {
 				continue
 			}
-			et := tm.Of(ret.Results[1])
-			for _, a := range et.Alternatives() {
-				switch {
-				case a.Op == "global" && a.Obj == sentinel.Object():
-					n++
-					capPos, strict := false, false
-					for _, g := range Guards(b) {
-						gt := tm.Of(g.Cond)
-						if gt.Op != "bin" || !g.True {
-							continue
-						}
-						l, rr, op := gt.Args[0], gt.Args[1], gt.Name
-						if op == "<" {
-							l, rr, op = rr, l, ">"
-						}
-						if op == ">" && isParamIdx(l, 2) && rr.String() == "0" {
-							capPos = true
-						}
-						if op == ">" && isParamIdx(l, 1) && isParamIdx(rr, 2) {
-							strict = true
-						}
-					}
-					r.Check(capPos && strict, "Depth.cap.guard", p.Pos(ret.Pos()), "the error is raised only under cap > 0 && d > cap",
-						fmt.Sprintf("the depth-exceeded error is raised under a different condition (cap>0 seen: %v, strict d>cap seen: %v): a depth equal to the cap must not be an error and cap 0 means no cap", capPos, strict))
-					r.Check(isParamIdx(tm.Of(ret.Results[0]), 2), "Depth.cap.value", p.Pos(ret.Pos()), "the cap is returned with the error", "the value returned with the depth-exceeded error is "+tm.Of(ret.Results[0]).String()+", expected the cap")
-				case a.Op == "nil":
-				case a.Op == "extract" && isCallTo(a.Args[0], depth):
-					// propagated: value must be propagated from the same call
-					v := tm.Of(ret.Results[0])
-					r.Check(v.Op == "extract" && v.Args[0].V == a.Args[0].V, "Depth.cap.propagate", p.Pos(ret.Pos()), "recursion errors are propagated with their value", "a recursion error is returned with "+v.String())
-				default:
-					r.Bad("Depth.cap.origin", p.Pos(ret.Pos()), "Depth returns an error of unknown origin: "+a.String())
+			ret, v, e := rc.Ret, rc.Vals[0], rc.Vals[1]
+			switch {
+			case isSentinel(e):
+				n++
+				capPos, strict := true, true
+				for _, pa := range rc.Paths {
+					lits := pa.Lits(tm)
+					capPos = capPos && c14Holds(lits, "0<p2", true)
+					strict = strict && c14Holds(lits, "p2<p1", true)
 				}
+				r.Check(capPos && strict, "Depth.cap.guard", p.Pos(ret.Pos()), "the error is raised only under cap > 0 && d > cap",
+					fmt.Sprintf("the depth-exceeded error is raised under a different condition (cap>0 seen: %v, strict d>cap seen: %v): a depth equal to the cap must not be an error and cap 0 means no cap", capPos, strict))
+				r.Check(v == ssa.Value(depth.Params[2]), "Depth.cap.value", p.Pos(ret.Pos()), "the cap is returned with the error", "the value returned with the depth-exceeded error is "+T(v).String()+", expected the cap")
+			case rc.ErrNil(1):
+			case depthResult(e, 1) != nil:
+				// propagated: the value must come from the same call (and the same execution of it)
+				same := depthResult(v, 0) == depthResult(e, 1)
+				for j, pa := range rc.Paths {
+					if same && !pa.sameInstance(depthResult(e, 1), rc.Pos[j][0], rc.Pos[j][1]) {
+						same = false
+					}
+				}
+				r.Check(same, "Depth.cap.propagate", p.Pos(ret.Pos()), "recursion errors are propagated with their value", "a recursion error is returned with "+T(v).String())
+			default:
+				r.Bad("Depth.cap.origin", p.Pos(ret.Pos()), "Depth returns an error of unknown origin: "+T(e).String())
 			}
 		}
 		r.Floor("returns of the depth-exceeded sentinel", n, 1)
+		// an error reported by the recursion ends the query with that error
+		if rc, x := c14DroppedError(depthCases(), 1, func(v ssa.Value) bool { return depthResult(v, 1) != nil }); rc != nil {
+			r.Bad("Depth.cap.kept", p.Pos(rc.Ret.Pos()), "after the recursion reported the error "+T(x).String()+" Depth can return "+T(rc.Vals[1]).String()+" instead: the depth-exceeded error is lost and the cap is reported as if it were the depth")
+		} else {
+			r.OK("Depth.cap.kept", p.Pos(depth.Pos()), "an error reported by the recursion is returned")
+		}
 	})
 
-	r.Rule("C14.4", "counting: sensors return d; MaxActivationDepthWithCap takes the strict maximum of Depth(0, cap) over the outputs, starting from 0, and returns 1 only when there are no hidden nodes", func() {
-		// sensor return
+	r.Rule("C14.4", "counting: sensors return d; MaxActivationDepthWithCap takes the strict maximum of Depth(0, cap) over all outputs, starting from 0, and returns 1 only when there are no hidden nodes", func() {
+		// sensor base case: in every case in which IsSensor() holds for the receiver, Depth returns (d, nil) - or the cap
+		// error raised before the test - and never recurses. The cases are read off IsSensor's own body, so a test written
+		// out by hand (a switch over the neuron type) is the same condition.
 		isSensor := p.Func(PkgN, "NNode.IsSensor")
-		found := false
-		for _, b := range depth.Blocks {
-			ret, ok := b.Instrs[len(b.Instrs)-1].(*ssa.Return)
-			if !ok {
-				continue
-			}
-			for _, g := range Guards(b) {
-				if gt := tm.Of(g.Cond); isCallTo(gt, isSensor) && g.True && gt.Args[0].Op == "recv" {
-					found = true
-					r.Check(isParamIdx(tm.Of(ret.Results[0]), 1) && tm.Of(ret.Results[1]).Op == "nil", "Depth.sensor", p.Pos(ret.Pos()), "a sensor returns (d, nil)", "a sensor returns "+tm.Of(ret.Results[0]).String())
-				}
+		cases, fields := c14TrueCases(isSensor)
+		for _, f := range fields {
+			if len(FieldStores(depth, f)) > 0 {
+				cases = nil // the predicate's inputs change inside Depth: only the call itself is a stable test
 			}
 		}
-		r.Check(found, "Depth.sensor.branch", p.Pos(depth.Pos()), "the sensor base case exists", "Depth has no base case for sensors")
-		// final return is the accumulator that starts at d
-		for _, b := range depth.Blocks {
-			ret, ok := b.Instrs[len(b.Instrs)-1].(*ssa.Return)
-			if !ok {
+		if cases == nil {
+			cases = []map[string]bool{{}}
+		}
+		recursion := CallsTo(depth, depth)
+		foundBase, recurses := true, false
+		badRet := ""
+		var basePos token.Pos
+		var wit []string
+		for _, cs := range cases {
+			decide := func(cond ssa.Value) (bool, bool) {
+				neg := false
+				for {
+					if u, ok := cond.(*ssa.UnOp); ok && u.Op == token.NOT {
+						cond, neg = u.X, !neg
+						continue
+					}
+					break
+				}
+				if c, ok := cond.(*ssa.Call); ok && c.Call.StaticCallee() == isSensor && len(c.Call.Args) == 1 && c14IsParam(depth, c.Call.Args[0], 0) {
+					return !neg, true
+				}
+				a, v := c14Lit(tm, cond, true)
+				if val, ok := cs[a]; ok {
+					return (val == v) != neg, true
+				}
+				// x == c2 is false once x == c1 is known for another constant c1
+				if x, cst, ok := c14EqConst(tm, cond); ok && c14OtherConst(cs, x, cst) {
+					isEq := cond.(*ssa.BinOp).Op == token.EQL
+					return (!isEq) != neg, true
+				}
+				return false, false
+			}
+			paths, complete := c14EnumPaths(depth, decide, 4000)
+			if !complete {
+				r.Undecided("Depth.sensor.paths", p.Pos(depth.Pos()), "too many paths")
 				continue
 			}
-			if ph, ok := ret.Results[0].(*ssa.Phi); ok {
-				startsAtD := false
-				for _, e := range ph.Edges {
-					if isParamIdx(tm.Of(e), 1) {
-						startsAtD = true
+			r.PathsExplored += len(paths)
+			base := false
+			for _, pa := range paths {
+				for _, c := range recursion {
+					if pa.OnPath(c) {
+						recurses = true
+						if wit == nil {
+							for _, b := range pa.Blocks {
+								wit = append(wit, describeBlock(p, b, nil))
+							}
+						}
 					}
 				}
-				r.Check(startsAtD, "Depth.acc.init", p.Pos(ret.Pos()), "the running maximum starts at d", "the running maximum does not start at d")
+				if len(pa.Ret.Results) != 2 {
+					continue
+				}
+				v, e := pa.Resolve(pa.Ret.Results[0]), pa.Resolve(pa.Ret.Results[1])
+				if isSentinel(e) {
+					continue // the cap error: its condition and value are rule C14.3
+				}
+				ec, isC := e.(*ssa.Const)
+				if v == ssa.Value(depth.Params[1]) && isC && ec.Value == nil {
+					base = true
+					if !basePos.IsValid() {
+						basePos = pa.Ret.Pos()
+					}
+					continue
+				}
+				if badRet == "" {
+					badRet = "(" + T(v).String() + ", " + T(e).String() + ")"
+					if len(cs) > 0 {
+						badRet += " when " + c14SortedAtoms(cs)
+					}
+				}
+			}
+			if !base {
+				foundBase = false
+			}
+		}
+		if !basePos.IsValid() {
+			basePos = depth.Pos()
+		}
+		if badRet != "" {
+			r.Bad("Depth.sensor", p.Pos(basePos), "a sensor returns "+badRet)
+		} else if foundBase && !recurses {
+			r.OK("Depth.sensor", p.Pos(basePos), "a sensor returns (d, nil)")
+		}
+		r.Check(foundBase && !recurses, "Depth.sensor.branch", p.Pos(depth.Pos()), "the sensor base case exists: a sensor returns before the traversal", "Depth has no base case for sensors", wit...)
+		// the running maximum starts at d: whenever Depth returns without an error, the value is d itself (no link was
+		// followed, or none led deeper) or a depth reported by the recursion
+		{
+			bad := ""
+			var okPos, badPos token.Pos
+			for _, rc := range depthCases() {
+				if len(rc.Vals) != 2 || !rc.ErrNil(1) {
+					continue
+				}
+				v := rc.Vals[0]
+				if v == ssa.Value(depth.Params[1]) || depthResult(v, 0) != nil {
+					if rc.Ret.Pos() > okPos {
+						okPos = rc.Ret.Pos()
+					}
+					continue
+				}
+				if bad == "" {
+					bad, badPos = T(v).String(), rc.Ret.Pos()
+				}
+			}
+			if bad != "" {
+				r.Bad("Depth.acc.init", p.Pos(badPos), "the running maximum does not start at d: without an error Depth can return "+bad+", which is neither d nor a depth reported by the recursion")
+			} else {
+				r.OK("Depth.acc.init", p.Pos(okPos), "the running maximum starts at d")
 			}
 		}
 
 		mx := p.Func(PkgN, "Network.MaxActivationDepthWithCap")
 		r.Fn(FuncName(mx))
 		tmx := NewTermer(mx)
+		TX := func(v ssa.Value) *Term { return c14T(tmx, v) }
 		calls := CallsTo(mx, depth)
 		for _, c := range calls {
 			r.CallSites++
-			a := callArgTerms(tmx, c.Common())
+			var a []*Term
+			for _, v := range c.Common().Args {
+				a = append(a, TX(v))
+			}
 			okRecv := a[0].Op == "elem" && a[0].Args[0].Op == "field" && a[0].Args[0].Name == "Outputs" && a[0].Args[0].Args[0].Op == "recv"
 			r.Check(okRecv, "MaxDepth.outputs", p.Pos(c.Pos()), "Depth is queried on every element of Outputs", "Depth is queried on "+a[0].String()+", expected the network's outputs")
 			r.Check(a[1].String() == "0", "MaxDepth.d0", p.Pos(c.Pos()), "outputs start at depth 0", "outputs start at depth "+a[1].String())
@@ -292,13 +521,20 @@ func C14(p *Prog, r *Run) {
 					ex = e
 				}
 			}
+			examined := false
+			for _, ref := range *c.Value().Referrers() {
+				if e, ok := ref.(*ssa.Extract); ok && e.Index == 1 && len(*e.Referrers()) > 0 {
+					examined = true
+				}
+			}
+			r.Check(examined, "MaxDepth.err", p.Pos(c.Pos()), "the error of the depth query is examined", "the error of the depth query of an output is ignored: a depth-exceeded result (the cap) is taken as the depth")
 			if ex != nil {
 				op, acc, ok := foldsAsMax(ex)
 				r.Check(ok && (op == token.GTR || op == token.GEQ), "MaxDepth.fold", p.Pos(c.Pos()), "maximum over the outputs", fmt.Sprintf("depths of the outputs are not folded as a maximum (found=%v op=%s)", ok, op))
 				if ok {
 					init := false
 					for _, e := range acc.Edges {
-						if tmx.Of(e).String() == "0" {
+						if TX(e).String() == "0" {
 							init = true
 						}
 					}
@@ -307,55 +543,90 @@ func C14(p *Prog, r *Run) {
 			} else {
 				r.Bad("MaxDepth.fold", p.Pos(c.Pos()), "the depth of an output is ignored")
 			}
+			// every output is queried: each iteration of the loop over Outputs makes the query, and the loop ends early only
+			// after a query reported an error (an output that is not examined can be the deepest one, or the one that exceeds the cap)
+			l := scanLoopOf(Loops(mx), c.Block())
+			if l == nil || !loopRangesOver(tmx, l, "recv.Outputs") {
+				r.Bad("MaxDepth.outputs.loop", p.Pos(c.Pos()), "the depth query is not inside a loop over all outputs of the network")
+				continue
+			}
+			paths, complete := EnumIterPaths(mx, l, 500)
+			if !complete {
+				r.Undecided("MaxDepth.outputs.paths", p.Pos(c.Pos()), "too many paths")
+				continue
+			}
+			r.PathsExplored += len(paths)
+			var skip []string
+			for _, ip := range paths {
+				if ip.End == "back" && !ip.OnPath(c) {
+					skip = ip.Describe(p)
+				}
+			}
+			early := c14EarlyLeave(p, l, paths, c)
+			r.Check(skip == nil && early == nil, "MaxDepth.outputs.all", p.Pos(c.Pos()), "every output is queried: the loop over the outputs ends only when they are exhausted or a query reported an error",
+				"an output can be left unexamined although no query reported an error (the loop over the outputs skips an iteration or ends early): a deeper output, or the one exceeding the cap, is missed", append(skip, early...)...)
 		}
 		r.Floor("Depth calls in MaxActivationDepthWithCap", len(calls), 1)
 		// every value the function returns is the shortcut 1, the running maximum, or what a failed Depth call returned
-		for _, b := range mx.Blocks {
-			ret, ok := b.Instrs[len(b.Instrs)-1].(*ssa.Return)
-			if !ok {
+		mcases, complete := c14ReturnCases(mx, 4000)
+		if !complete {
+			Bail("MaxDepth.returns.paths", p.Pos(mx.Pos()), "too many paths through MaxActivationDepthWithCap")
+		}
+		for _, rc := range mcases {
+			r.PathsExplored += len(rc.Paths)
+			if len(rc.Vals) != 2 {
 				continue
 			}
-			et := tmx.Of(ret.Results[1])
-			for _, a := range tmx.Of(ret.Results[0]).Alternatives() {
-				okV := false
+			v, e := rc.Vals[0], rc.Vals[1]
+			okV := false
+			if k, isC := v.(*ssa.Const); isC && k.Value != nil {
 				switch {
-				case a.Op == "const" && a.Name == "1":
+				case k.Value.ExactString() == "1":
 					okV = true
-				case a.Op == "const" && et.Op != "nil":
+				case !rc.ErrNil(1):
 					okV = true // a constant returned together with an error (unsupported network)
-				case a.Op == "const" && a.Name == "0":
+				case k.Value.ExactString() == "0":
 					okV = true // the initial value of the running maximum
-				case a.Op == "extract" && isCallTo(a.Args[0], depth):
-					okV = true
-				case a.Op == "loop":
-					okV = true
 				}
-				if !okV {
-					r.Bad("MaxDepth.result-origin", p.Pos(ret.Pos()), "MaxActivationDepthWithCap can return "+a.String()+", which is neither the shortcut, the running maximum over the outputs nor the result of a Depth query of this call (a stored value ignores the cap and the current topology)")
-				}
+			} else if depthResult(v, 0) != nil {
+				okV = true
 			}
+			if !okV {
+				r.Bad("MaxDepth.result-origin", p.Pos(rc.Ret.Pos()), "MaxActivationDepthWithCap can return "+TX(v).String()+", which is neither the shortcut, the running maximum over the outputs nor the result of a Depth query of this call (a stored value ignores the cap and the current topology)")
+			}
+			// an error reported by a depth query comes back with the value of that query (the cap)
+			if c := depthResult(e, 1); c != nil && !rc.ErrNil(1) && depthResult(v, 0) != c {
+				r.Bad("MaxDepth.propagate", p.Pos(rc.Ret.Pos()), "the error of a depth query is returned with "+TX(v).String()+" instead of the value that query reported (the cap)")
+			}
+		}
+		if rc, x := c14DroppedError(mcases, 1, func(v ssa.Value) bool { return depthResult(v, 1) != nil }); rc != nil {
+			r.Bad("MaxDepth.err.kept", p.Pos(rc.Ret.Pos()), "after a depth query reported the error "+TX(x).String()+" MaxActivationDepthWithCap can return "+TX(rc.Vals[1]).String()+" instead: the depth-exceeded error is lost")
+		} else {
+			r.OK("MaxDepth.err.kept", p.Pos(mx.Pos()), "an error reported by a depth query is returned")
 		}
 		// shortcut
-		nShort := 0
-		for _, b := range mx.Blocks {
-			ret, ok := b.Instrs[len(b.Instrs)-1].(*ssa.Return)
-			if !ok || tmx.Of(ret.Results[0]).String() != "1" {
+		want := linAtom("len(recv.allNodes)").Add(linAtom("len(recv.inputs)"), -1).Add(linAtom("len(recv.Outputs)"), -1)
+		for _, rc := range mcases {
+			if len(rc.Vals) != 2 || TX(rc.Vals[0]).String() != "1" || !rc.ErrNil(1) {
 				continue
 			}
-			nShort++
-			okG := false
-			for _, g := range Guards(b) {
-				gt := tmx.Of(g.Cond)
-				if gt.Op == "bin" && gt.Name == "==" && g.True {
-					s := gt.String()
-					if containsAll(s, "len(recv.allNodes)", "len(recv.inputs)", "len(recv.Outputs)") {
-						okG = true
+			okG := true
+			for _, pa := range rc.Paths {
+				seen := false
+				pa.EachCond(func(c ssa.Value, o bool, _ int) {
+					b, isBin := c.(*ssa.BinOp)
+					if !isBin || !((b.Op == token.EQL && o) || (b.Op == token.NEQ && !o)) {
+						return
 					}
-				}
+					diff := c14Lin(TX(b.X)).Add(c14Lin(TX(b.Y)), -1)
+					if diff.Equal(want) || diff.Add(want, 1).IsZero() {
+						seen = true
+					}
+				})
+				okG = okG && seen
 			}
-			r.Check(okG, "MaxDepth.shortcut", p.Pos(ret.Pos()), "depth 1 is returned only when all nodes are inputs or outputs", "the shortcut `return 1` is not guarded by len(allNodes) == len(inputs)+len(Outputs)")
+			r.Check(okG, "MaxDepth.shortcut", p.Pos(rc.Ret.Pos()), "depth 1 is returned only when all nodes are inputs or outputs", "the shortcut `return 1` is not guarded by len(allNodes) == len(inputs)+len(Outputs)")
 		}
-		_ = types.Typ
 	})
 }
 
